@@ -30,4 +30,13 @@ PROPS["C20"] = {
     "technique": "Coq proof by nested structural induction over report trees + differential correspondence check of printInfo",
 }
 
+PROPS["C07"] = {
+    "rule": "name predicate on reserved names, near misses, paths, empty and seeded random names; magic predicate on every prefix of every signature; full Inspect on the matrix file-name class x content class (valid instance of every row's format, signature+garbage, polyglots, short prefixes, empty, junk) plus seeded byte mutations of each cell; per case the hooks report each row's sniffer verdict and each row parser's individual result, from which the model computes what Inspect must return; non-trivial = implementation description not empty; distinct = distinct (op,input)",
+    "trusted": ["internal/file verif hooks (table dump, per-row predicates, per-row parser runs)", "sniffers and parsers enter the dispatcher model as oracles whose answers the harness records per case"],
+    "assumptions": ["the signature list of the property (PuTTY, JKS/JCEKS, RPM, SSH1, PGP armor, PEM) is typed independently in Run/C07.v (spec_signatures)"],
+    "level_text": "Theorems for every name, content, sniffer and parser behaviour: Inspect's result is the first success among the candidates in table order; when all candidates fail the description is empty with no attributes or children; a non-empty result is exactly one candidate's result; a signature row whose magic matches and which is preceded only by non-matching signature rows decides the result whatever the name; the dispatcher cannot panic. The format table is regenerated from the running code on every run and its well-formedness (signature rows ordered most-specific-first, no wildcards, parsers present) is re-proved by vm_compute.",
+    "level_note": "Trusted: Coq kernel; Model/Dispatch.v as a model of filetype.go/info.go (tied by comparing candidate lists and Inspect results on the matrix); table dump hook + translator; parsers and sniffers are oracles here (their own models belong to other properties).",
+    "technique": "Coq proof (list induction over candidates; instance lemma on the regenerated table) + differential correspondence check of Inspect",
+}
+
 NOT_YET = {}
